@@ -83,9 +83,18 @@ fn clamp(v: &mut Value) {
     }
 }
 
+fn gverif_zst_live() -> (i64, i64) {
+    elem::zst_live()
+}
+
 fn emit(out: &mut dyn Write, e: &Value) {
     let mut e = e.clone();
     clamp(&mut e);
+    if e["op"] == "EndRun" {
+        // every map is gone: no zero-sized key or value may be alive (nor dropped once too often)
+        let (zk, zv) = gverif_zst_live();
+        e["zl"] = json!([zk, zv]);
+    }
     if cfg!(miri) && e["op"] == "EndRun" {
         e["par"] = json!(1); // allocation counts are meaningless under Miri (no alignment filter)
     }
@@ -698,6 +707,45 @@ fn run_meta<K: KeyT, V: ValT>(a: &Args) {
             ex(&mut w, json!({"op":"Eq","s":a_,"d":b_}));
         }
         for s in 1..=3 {
+            ex(&mut w, json!({"op":"DropMap","s":s}));
+        }
+        // empty maps with different pasts: never used / emptied while a resize was pending, the old table
+        // emptied by retain (it stays attached) and then the main table emptied too / filled and cleared
+        ex(&mut w, json!({"op":"New","s":1,"ty":ty,"cap":0,"hm":hm,"hs":0}));
+        ex(&mut w, json!({"op":"New","s":2,"ty":ty,"cap":0,"hm":hm,"hs":1}));
+        if zst {
+            ex(&mut w, ins(2, 0, 0));
+            ex(&mut w, json!({"op":"Reserve","s":2,"n":{"rel":"cap","d":1}}));
+        } else {
+            for k in 1..=60u32 {
+                ex(&mut w, ins(2, k, if set { 0 } else { 1 }));
+                let st = w.vstate(2).unwrap();
+                if st.split && st.old_len >= 1 && k >= 10 {
+                    break;
+                }
+            }
+        }
+        ex(&mut w, json!({"op":"Retain","s":2,"pred":{"table":"main"}}));
+        if rng.gen_bool(0.5) {
+            ex(&mut w, json!({"op":"Retain","s":2,"pred":{"none":1}}));
+        } else {
+            let (ka, _) = w.keys_by_table(2);
+            for k in ka {
+                ex(&mut w, rem(2, k));
+            }
+        }
+        ex(&mut w, json!({"op":"New","s":3,"ty":ty,"cap":*[0usize, 7, 29].choose(&mut rng).unwrap(),"hm":hm,"hs":2}));
+        for k in 1..=(if zst { 1 } else { rng.gen_range(1..20u32) }) {
+            ex(&mut w, ins(3, if zst { 0 } else { k }, if zst { 0 } else { 2 }));
+        }
+        ex(&mut w, if rng.gen_bool(0.5) { json!({"op":"Clear","s":3}) } else { json!({"op":"Drain","s":3,"end":"drop","take":0}) });
+        observe(&mut w, &mut ex);
+        for s in 1..=3 {
+            if set {
+                ex(&mut w, json!({"op":"SContains","s":s,"k": if zst { 0 } else { 3 }}));
+            } else {
+                ex(&mut w, json!({"op":"Get","s":s,"k": if zst { 0 } else { 3 },"kind":"get"}));
+            }
             ex(&mut w, json!({"op":"DropMap","s":s}));
         }
         drop(ex);
